@@ -19,8 +19,12 @@ def do_replay(path):
     prop = body["property"]
     mod = load_module(prop)
     case = common.unjson(body["case"])
-    with common.hang_guard():
-        v = mod.replay(body["check"], case)
+    if body.get("replay_mode") == "shard":
+        v = common.replay_shard(common.unjson(body["shard"]), body["check"],
+                                body["cls"], case, in_process=True)
+    else:
+        with common.hang_guard():
+            v = mod.replay(body["check"], case)
     if v is None:
         print("replay %s: property=%s check=%s: no violation on this tree"
               % (path, prop, body["check"]))
